@@ -266,9 +266,39 @@ def ed25519(ctx, world, ev):
     X, Y = Sym("ex", "int"), Sym("ey", "int")
     st.heap[e.oid][cf[0]] = TupleV([X, Y, Const(1), mk_app("Mult", (X, Y))])
     outs = ev.run_method(e, "to_bytes", [], st=st.fork())
+    # an extended->affine conversion with a case split (e.g. a Z == 1 shortcut) is a leaf function with a branch and stays
+    # opaque under the default policy: the encoder rules look inside it
+    ev0 = ev
+    opq = set()
+    for o in outs:
+        for t in ([o.value] if o.kind == "return" else []) + [t for (t, p, _) in o.state.pc]:
+            for x_ in subterms(t):
+                if isinstance(x_, App) and x_.f.startswith("fn:") and any(isinstance(a, TupleV) and len(a.items) == 4 for a in x_.args):
+                    f_ = gm.func_by_qual(world, x_.f[3:])
+                    if f_ is not None and ev.policy.ret_shape(f_) == 2:
+                        opq.add(f_.qual)
+    if opq:
+        from ..evalr import Ev as _Ev
+        ev = _Ev(world)
+        ev.import_all()
+        ev.policy.force_inline.update(opq)
+        outs = ev.run_method(e, "to_bytes", [], st=st.fork())
     rets = session.rets(outs)
     ctx.total(rets, outs, "K-total", "Ed25519 to_bytes has no returning path")
     inv1 = mk_app("pow", (Const(1), Const(Q - 2), Const(Q)))
+    raw_sites = []
+
+    def raw_use(t, syms):
+        """a stored coordinate read without a reduction mod Q on the way"""
+        if t in syms:
+            return True
+        if (is_app(t, "Mod") and t.args[1] == Const(Q)) or (is_app(t, "pow") and len(t.args) == 3 and t.args[2] == Const(Q)):
+            return False
+        if isinstance(t, App):
+            return any(raw_use(a, syms) for a in t.args)
+        if isinstance(t, TupleV):
+            return any(raw_use(a, syms) for a in t.items)
+        return False
 
     def affine(t):
         """strip the (x * inv(1)) % Q wrapping of the extended->affine conversion with Z = 1"""
@@ -329,8 +359,22 @@ def ed25519(ctx, world, ev):
             if is_app(t, "Eq", "NotEq") and len(t.args) == 2 and any(isinstance(a, Const) and a.v in (0, 1) for a in t.args):
                 t = [a for a in t.args if not (isinstance(a, Const) and a.v in (0, 1))][0]
             return (is_app(t, "BitAnd") and Const(1) in t.args) or (is_app(t, "Mod") and t.args[1] == Const(2))
+        def _implied(t, p):
+            """a range condition on a stored coordinate read as it is that holds for every residue in [0, Q)"""
+            if p is not True or not is_app(t, "Lt", "LtE") or len(t.args) != 2:
+                return False
+            a, b_ = t.args
+            if isinstance(a, Const) and isinstance(a.v, int) and b_ in (X, Y):
+                return a.v <= (0 if t.f == "LtE" else -1)
+            if isinstance(b_, Const) and isinstance(b_.v, int) and a in (X, Y):
+                return b_.v >= (Q - 1 if t.f == "LtE" else Q)
+            return False
+        if any(_implied(t, p) for (t, p) in conds):
+            raw_sites.append(o.site)
         extra = [show(t, maxdepth=4) + "=" + str(p) for (t, p) in conds
-                 if any(x_ in (X, Y) for x_ in subterms(t)) and not _parity(t) and not is_app(t, "isinstance")]
+                 if any(x_ in (X, Y) for x_ in subterms(t)) and not _parity(t) and not is_app(t, "isinstance") and not _implied(t, p)]
+        if raw_use(v, (X, Y)) or any(_parity(t) and raw_use(t, (X, Y)) for (t, p) in conds):
+            raw_sites.append(o.site)
         ctx.ob("K5-encoder-total", "Ed25519 point to_bytes", not extra, "every point is encoded: no condition on the coordinates besides the parity of x" if not extra else
                "the point encoder also requires %s: some subgroup elements cannot be encoded" % extra, o.site)
         ctx.ob("K5-encoder", "Ed25519 point to_bytes", ok, "32-byte little-endian y with bit 255 = x & 1 (%s)" % why if ok else
@@ -359,6 +403,15 @@ def ed25519(ctx, world, ev):
         ctx.ob("K5-encoder-reduced", "Ed25519 point to_bytes (projective Z)", not bad,
                "the encoded value and the parity are computed from affine coordinates reduced mod Q" if not bad else
                "an affine coordinate is used unreduced: %s" % bad, o.site or tbsite)
+        if raw_use(val, (X, Y, Zs, Ts)) or any(_parity(t) and raw_use(t, (X, Y, Zs, Ts)) for (t, p) in conds_of(o)):
+            raw_sites.append(o.site or tbsite)
+    if raw_sites:
+        # the encoder reads a stored coordinate as it is (on some path): right exactly when every producer of element
+        # objects stores residues - a whole-package representation invariant, reported at the producer that breaks it
+        from .. import coordinv
+        for (inst, ok, detail, site) in coordinv.producer_obligations(world, ev0):
+            ctx.ob("K5-encoder-inv", inst, ok, ("to_bytes encodes a stored coordinate without reducing it (%s); " % fmt_site_(raw_sites[0])) + detail, site or raw_sites[0])
+    ev = ev0
     # ---- decoder agreement: flip iff parity(x0) != bit 255 of the little-endian integer
     b = Sym("b", "bytes")
     outs = ev.run_method(G, "bytes_to_element", [b], st=world.static.fork())
@@ -426,6 +479,11 @@ def ed25519(ctx, world, ev):
         ctx.ob("K5-width", "Ed25519 decode path (%s)" % ("x = Q - root" if flip else "x = root"), okl,
                "decoder accepts exactly 32 bytes (C05 D1)" if okl else "decoder does not enforce the 32-byte width: not the inverse of the encoder", o.site)
     ctx.ob("K5-decoder", "decode paths", nf >= 2, "%d accepting decode paths examined" % nf)
+
+
+def fmt_site_(s):
+    from ..report import fmt_site
+    return fmt_site(s)
 
 
 def check(ctx, world):
